@@ -124,6 +124,25 @@ def _mapspec_with_internal_shape(f_out: PipeFunc, parameter_name: str) -> bool:
     return not all_inputs_in_outputs
 
 
+def validate_unique_outputs(functions: list[PipeFunc]) -> None:
+    """Check that no output name is produced by two functions.
+
+    `Pipeline.add` rejects a new function whose output already exists, but an output can also
+    be renamed onto an existing one afterwards (``update_renames`` of the pipeline or of a
+    member function).
+    """
+    seen: dict[str, PipeFunc] = {}
+    for f in functions:
+        for name in at_least_tuple(f.output_name):
+            if name in seen and seen[name] is not f:
+                msg = (
+                    f"The output name `{name!r}` is produced by two functions in the pipeline"
+                    f" (`{seen[name]}` and `{f}`)."
+                )
+                raise ValueError(msg)
+            seen[name] = f
+
+
 def validate_unique_output_names(
     output_name: OUTPUT_TYPE,
     output_to_func: dict[OUTPUT_TYPE, PipeFunc],
